@@ -199,6 +199,18 @@ def c03 (c : Ctx) (ob : Obs) : Verdict :=
           | none => false
       ofBool (once && inside && ordered && complete)
 
+/-! ## C17 (at the level of the binary) -/
+
+/-- A read-only listing (`--show`, `--vars`, or no task names and no default task) without `--spokfile`: it succeeds
+    exactly when discovery — from the working directory upwards, not above `$HOME` — finds a spokfile (`c.spokfile`, worked out
+    by the model of `Find` on the sandbox) that reads, parses and loads; when none is to be found the invocation fails. -/
+def c17 (c : Ctx) (ob : Obs) : Verdict :=
+  if c.opts.spokfileGiven || c.opts.init || (c.opts.quiet && c.opts.debug) then .na
+  else match action c.opts c.args c.world with
+    | .show | .vars | .list => ofBool (ob.exit == 0 && c.spokfile.isSome)
+    | .error .notFound => ofBool (ob.exit != 0 && c.spokfile.isNone)
+    | _ => .na
+
 /-! ## C14 (at the level of the binary) -/
 
 /-- `--force` on an invocation that runs tasks (named ones, or the default task) and in which nothing fails: every task
